@@ -28,7 +28,7 @@ def run(tier):
         evs = [json.loads(l) for l in open(tr)]
         total_ev += len(evs)
         for e in evs:
-            if e["ev"] == "panic" and not e["e"].endswith("[locks refused]"):
+            if e["ev"] == "panic" and not e["e"].endswith("refused]"):
                 ck.fail("%s: panicked" % e["e"], {"panic": e.get("panic")})
         t = run_tlc("Rng", "Rng_%s" % cfg, workers=1, env={"TRACE": tr}, deque=True, xss="1g", coverage=False, timeout=3000, name="Rng" + cfg)
         ck.add_tlc(t, "Rng.tla trace validation (%s)" % cfg)
